@@ -4,6 +4,13 @@
 //! `RouteMonitoring::bgp_update(&cfg)`; default `4` = SessionConfig::modern()); reply: `err` | `panic` (from_octets) | an observation
 //! line listing every accessor group (each group is `panic` if any accessor in
 //! it panicked).
+//! `bmpwf <hex> [<cfg>]`: the same, for a message the generator (or whoever wrote the corpus line) built
+//! with the reference encoders below from WELL-FORMED parts and did not damage: the oracle then demands
+//! that it is ACCEPTED (property clause "for every well-formed BMP message decoding succeeds").
+//! `unspec`: reply for an accepted-or-rejected PeerUp / PeerDown whose embedded PDU does not carry the
+//! BGP type octet of an OPEN resp. a NOTIFICATION and on which nothing panicked: such a message is
+//! not well-formed and the property does not say whether it is accepted (both sides print the
+//! class only; a panic anywhere keeps the full reply).
 use crate::common::*;
 use routecore::bmp::message::*;
 use routecore::bgp::message::SessionConfig;
@@ -67,7 +74,29 @@ fn stat_str(s: Stat) -> String {
     }
 }
 
+/// the embedded PDU of a PeerUp (both OPENs) / PeerDown (reason 1 or 3) carries another BGP type octet
+/// than OPEN (1) / NOTIFICATION (3): positions from the bytes alone
+pub fn embedded_type_wrong(b: &[u8]) -> bool {
+    if b.len() < 6 { return false; }
+    match b[5] {
+        3 => {
+            if b.len() < 68 + 19 { return false; }
+            if b[68 + 18] != 1 { return true; }
+            let l1 = u16::from_be_bytes([b[68 + 16], b[68 + 17]]) as usize;
+            b.len() >= 68 + l1 + 19 && b[68 + l1 + 18] != 1
+        }
+        2 => b.len() >= 49 + 19 && (b[48] == 1 || b[48] == 3) && b[49 + 18] != 3,
+        _ => false,
+    }
+}
+
 fn observe(bytes: &[u8], cfg: &SessionConfig) -> String {
+    let r = observe_full(bytes, cfg);
+    if embedded_type_wrong(bytes) && r != "panic" && !r.contains("=panic") && !r.ends_with(" panic") { return "unspec".into(); }
+    r
+}
+
+fn observe_full(bytes: &[u8], cfg: &SessionConfig) -> String {
     let msg = match Message::from_octets(bytes) {
         Ok(m) => m,
         Err(_) => return "err".into(),
@@ -176,7 +205,7 @@ fn observe(bytes: &[u8], cfg: &SessionConfig) -> String {
                 for i in m.information().take(100_000) {
                     let _ = format!("{}", i);
                     v.push(match i {
-                        TerminationInformation::CustomString(s) => if s.is_ascii() { format!("s:{}", s.len()) } else { "s:*".into() },
+                        TerminationInformation::CustomString(s) => if s.is_ascii() { format!("s:{}", hex(s.as_bytes())) } else { "s:*".into() },
                         TerminationInformation::AdminClose => "r:0".into(),
                         TerminationInformation::Unspecified => "r:1".into(),
                         TerminationInformation::OutOfResources => "r:2".into(),
@@ -193,6 +222,55 @@ fn observe(bytes: &[u8], cfg: &SessionConfig) -> String {
             let p = grp(|| pph_str(m.per_peer_header()));
             format!("MI {} pph={}", head, p)
         }
+    }
+}
+
+/// RFC 7854 framing of a whole message, from the bytes alone (a necessary condition of well-formedness that
+/// no byte deletion preserves): version 3, the header's length is the number of octets, a defined type, a
+/// defined peer type, and per type: TLV / statistics sequences that end exactly at the end with the
+/// prescribed lengths of the defined statistics, a defined peer-down reason followed by what 4.9 prescribes,
+/// embedded BGP PDUs whose own header gives their length and the expected type
+fn ref_framing_ok(b: &[u8]) -> bool {
+    if b.len() < 6 || b[0] != 3 || u32::from_be_bytes([b[1], b[2], b[3], b[4]]) as usize != b.len() || b[5] > 6 { return false; }
+    let typ = b[5];
+    if typ != 4 && typ != 5 && (b.len() < 48 || b[6] > 3) { return false; }
+    let tlvs_end = |mut p: usize| -> bool {
+        while p < b.len() {
+            if p + 4 > b.len() { return false; }
+            p += 4 + u16::from_be_bytes([b[p + 2], b[p + 3]]) as usize;
+        }
+        p == b.len()
+    };
+    // a BGP PDU of type `t` at `p`: Some(its length)
+    let pdu = |p: usize, t: u8, min: usize| -> Option<usize> {
+        if p + 19 > b.len() || b[p..p + 16].iter().any(|x| *x != 0xff) || b[p + 18] != t { return None; }
+        let l = u16::from_be_bytes([b[p + 16], b[p + 17]]) as usize;
+        if l < min || p + l > b.len() { None } else { Some(l) }
+    };
+    match typ {
+        0 => pdu(48, 2, 23) == Some(b.len() - 48),
+        1 => {
+            if b.len() < 52 { return false; }
+            let n = u32::from_be_bytes([b[48], b[49], b[50], b[51]]);
+            let mut p = 52;
+            for _ in 0..n {
+                if p + 4 > b.len() { return false; }
+                let (t, l) = (u16::from_be_bytes([b[p], b[p + 1]]), u16::from_be_bytes([b[p + 2], b[p + 3]]) as usize);
+                let want = match t { 0..=6 | 11..=13 => Some(4), 7 | 8 | 14 | 15 => Some(8), 9 | 10 | 16 | 17 => Some(11), _ => None };
+                if want.map(|w| w != l).unwrap_or(false) { return false; }
+                p += 4 + l;
+            }
+            p == b.len()
+        }
+        2 => b.len() >= 49 && match b[48] {
+            1 | 3 => b.len() == 49 || pdu(49, 3, 21) == Some(b.len() - 49),
+            2 => b.len() == 51,
+            0 | 4 | 5 => b.len() == 49,
+            _ => false,
+        },
+        3 => match pdu(68, 1, 29) { None => false, Some(l1) => match pdu(68 + l1, 1, 29) { None => false, Some(l2) => tlvs_end(68 + l1 + l2) } },
+        4 | 5 => tlvs_end(6),
+        _ => tlvs_end(48),
     }
 }
 
@@ -224,6 +302,19 @@ fn gen_pph(rng: &mut Rng) -> Vec<u8> {
     v.extend(s.to_be_bytes());
     v.extend(us.to_be_bytes());
     v
+}
+
+/// the 16-octet local-address field of a PeerUp: IPv4 (12 zero octets + 4), IPv6, and the edges of the
+/// "first 12 octets are zero" test (exactly one non-zero octet among the first 12 - the first, the last, any;
+/// all 16 zero)
+fn gen_local(rng: &mut Rng) -> Vec<u8> {
+    match rng.below(6) {
+        0 | 1 => { let mut v = vec![0u8; 12]; v.extend(rng.bytes(4)); v }
+        2 => rng.bytes(16),
+        3 => { let mut v = vec![0u8; 12]; v.extend(rng.bytes(4)); let i = *rng.pick(&[0usize, 11, 10, 1, 5]); v[i] = *rng.pick(&[1u8, 0x80, 0xff]); v }
+        4 => vec![0u8; 16],
+        _ => { let mut v = vec![0u8; 12]; v.extend(rng.bytes(4)); v[rng.usize(0, 11)] = rng.range(1, 255) as u8; v }
+    }
 }
 
 fn bgp_header(len: u16, typ: u8) -> Vec<u8> {
@@ -262,6 +353,11 @@ fn gen_cap(rng: &mut Rng) -> Vec<u8> {
         c.extend(v);
         return c;
     }
+    gen_cap_wf(rng)
+}
+
+/// a capability whose content follows its RFC (every branch is accepted by `Capability::parse`)
+fn gen_cap_wf(rng: &mut Rng) -> Vec<u8> {
     let (code, val): (u8, Vec<u8>) = match rng.below(16) {
         0 => (1, { let mut v = (rng.range(1, 3) as u16).to_be_bytes().to_vec(); v.push(0); v.push(*rng.pick(&[1u8, 2, 4, 128, 133])); v }),
         1 => (2, vec![]),
@@ -285,13 +381,18 @@ fn gen_cap(rng: &mut Rng) -> Vec<u8> {
     c
 }
 
-pub fn gen_open(rng: &mut Rng) -> Vec<u8> {
+pub fn gen_open(rng: &mut Rng) -> Vec<u8> { gen_open_with(rng, gen_cap) }
+
+/// an OPEN all of whose capabilities are well-formed
+pub fn gen_open_wf(rng: &mut Rng) -> Vec<u8> { gen_open_with(rng, gen_cap_wf) }
+
+fn gen_open_with(rng: &mut Rng, cap: fn(&mut Rng) -> Vec<u8>) -> Vec<u8> {
     let mut params: Vec<u8> = Vec::new();
     let nparams = rng.usize(0, 3);
     for _ in 0..nparams {
         if rng.chance(5, 6) {
             let mut caps = Vec::new();
-            for _ in 0..rng.usize(1, 3) { caps.extend(gen_cap(rng)); }
+            for _ in 0..rng.usize(1, 3) { caps.extend(cap(rng)); }
             if caps.len() > 200 { caps.truncate(0); }
             params.push(2); params.push(caps.len() as u8); params.extend(caps);
         } else {
@@ -306,6 +407,42 @@ pub fn gen_open(rng: &mut Rng) -> Vec<u8> {
     v.extend(rng.u16().to_be_bytes());
     v.extend(rng.bytes(4));
     v.push(params.len() as u8);
+    v.extend(params);
+    v
+}
+
+/// exactly `l` octets (l = 0 or l >= 2) of capabilities that `Capability::parse` accepts
+fn fill_caps(rng: &mut Rng, l: usize) -> Vec<u8> {
+    let mut v = Vec::new();
+    if l >= 2 && rng.bool() {
+        // one capability of an unassigned code filling the whole parameter
+        v.push(*rng.pick(&[10u8, 63, 200])); v.push((l - 2) as u8); v.extend(rng.bytes(l - 2));
+        return v;
+    }
+    let mut left = l;
+    if left % 2 == 1 && left >= 3 { v.extend([9u8, 1, rng.u8()]); left -= 3; }          // BGP Role: one octet
+    while left >= 2 { v.extend(*rng.pick(&[[2u8, 0], [6, 0], [70, 0], [128, 0]])); left -= 2; }
+    v
+}
+
+/// an OPEN with an optional parameter at the top of the one-octet length range (253, 254, 255 octets):
+/// type 1 / an unassigned type with arbitrary value, or type 2 with a capability list filling it.  Only
+/// `[t, 253, ..]` with Opt Parm Len 255 is well-formed (`wf`); the others overrun Opt Parm Len whatever it
+/// says (2 + 254 > 255) - consistent and inconsistent Opt Parm Len, sometimes a second parameter behind
+/// (the decoder must account in more than eight bits)
+pub fn gen_open_big(rng: &mut Rng, wf: bool) -> Vec<u8> {
+    let plen = if wf { 253 } else { *rng.pick(&[253usize, 254, 255, 255]) };
+    let ptype = match rng.below(3) { 0 => 1u8, 1 => if wf { 1 } else { *rng.pick(&[0u8, 3, 7, 255]) }, _ => 2 };
+    let mut params = vec![ptype, plen as u8];
+    params.extend(if ptype == 2 { fill_caps(rng, plen) } else { rng.bytes(plen) });
+    if !wf && rng.chance(1, 3) { let n = *rng.pick(&[253usize, 0, 1, 20]); params.extend([1u8, n as u8]); params.extend(rng.bytes(n)); }
+    let optlen: u8 = if wf { 255 } else { match rng.below(5) { 0 | 1 => 255, 2 => (params.len() & 0xff) as u8, 3 => ((2 + plen) & 0xff) as u8, _ => rng.u8() } };
+    let mut v = bgp_header((29 + params.len()) as u16, 1);
+    v.push(4);
+    v.extend(rng.u16().to_be_bytes());
+    v.extend(rng.u16().to_be_bytes());
+    v.extend(rng.bytes(4));
+    v.push(optlen);
     v.extend(params);
     v
 }
@@ -378,10 +515,14 @@ pub fn gen_valid(rng: &mut Rng, typ: u8) -> Vec<u8> {
         }
         3 => {
             body.extend(gen_pph(rng));
-            if rng.bool() { body.extend([0u8; 12]); body.extend(rng.bytes(4)); } else { body.extend(rng.bytes(16)); }
+            body.extend(gen_local(rng));
             body.extend(rng.bytes(4));
-            body.extend(gen_open(rng));
-            body.extend(gen_open(rng));
+            // one time in six: an OPEN (sent or received) with a 253..255-octet optional parameter
+            match rng.below(12) {
+                0 => { body.extend(gen_open_big(rng, false)); body.extend(gen_open(rng)); }
+                1 => { body.extend(gen_open(rng)); body.extend(gen_open_big(rng, false)); }
+                _ => { body.extend(gen_open(rng)); body.extend(gen_open(rng)); }
+            }
             for _ in 0..rng.usize(0, 3) { let so = rng.bool(); body.extend(gen_tlv(rng, so)); }
         }
         4 => { for _ in 0..rng.usize(0, 4) { body.extend(gen_tlv(rng, false)); } }
@@ -389,7 +530,7 @@ pub fn gen_valid(rng: &mut Rng, typ: u8) -> Vec<u8> {
             for _ in 0..rng.usize(0, 3) {
                 if rng.bool() { body.extend(gen_tlv(rng, true)); } else {
                     let l = if rng.chance(1, 6) { rng.usize(0, 5) } else { 2 };
-                    body.extend((rng.range(1, 3) as u16).to_be_bytes());
+                    body.extend((*rng.pick(&[1u16, 2, 3, 1, 2, 3, 4, 77, 65535])).to_be_bytes());
                     body.extend((l as u16).to_be_bytes());
                     if l == 2 { body.extend((rng.below(7) as u16).to_be_bytes()); } else { body.extend(rng.bytes(l)); }
                 }
@@ -402,24 +543,90 @@ pub fn gen_valid(rng: &mut Rng, typ: u8) -> Vec<u8> {
     v
 }
 
+/// a WELL-FORMED message of type `typ` (0..=6), built from the reference encoders only: per-peer header with
+/// a defined peer type, statistics with the length their type prescribes (unknown types: any length),
+/// defined peer-down reasons with what RFC 7854 4.9 puts after them, two OPENs whose capabilities follow
+/// their RFCs, Information / termination / mirroring TLVs with consistent lengths
+pub fn gen_valid_wf(rng: &mut Rng, typ: u8) -> Vec<u8> {
+    let mut body = Vec::new();
+    match typ {
+        0 => { body.extend(gen_pph(rng)); body.extend(gen_update(rng)); }
+        1 => {
+            body.extend(gen_pph(rng));
+            let n = match rng.below(8) { 0 => 0, 1 => rng.usize(20, 40), _ => rng.usize(1, 6) };
+            body.extend((n as u32).to_be_bytes());
+            for _ in 0..n {
+                let t = rng.below(22) as u16;
+                // an unknown type may carry a value of any length - sometimes a long one
+                let len: usize = match t { 0..=6 | 11..=13 => 4, 7 | 8 | 14 | 15 => 8, 9 | 10 | 16 | 17 => 11,
+                    _ => if rng.chance(1, 40) { rng.usize(200, 700) } else { rng.usize(0, 12) } };
+                body.extend(t.to_be_bytes()); body.extend((len as u16).to_be_bytes()); body.extend(rng.bytes(len));
+            }
+        }
+        2 => {
+            body.extend(gen_pph(rng));
+            let reason = rng.below(6) as u8;
+            body.push(reason);
+            match reason {
+                1 | 3 => { if rng.chance(4, 5) { body.extend(gen_notification(rng)); } }
+                2 => { body.extend(rng.bytes(2)); }
+                _ => {}
+            }
+        }
+        3 => {
+            body.extend(gen_pph(rng));
+            body.extend(gen_local(rng));
+            body.extend(rng.bytes(4));
+            // one time in eight: the largest optional-parameter block (Opt Parm Len 255, one 253-octet parameter)
+            match rng.below(16) {
+                0 => { body.extend(gen_open_big(rng, true)); body.extend(gen_open_wf(rng)); }
+                1 => { body.extend(gen_open_wf(rng)); body.extend(gen_open_big(rng, true)); }
+                _ => { body.extend(gen_open_wf(rng)); body.extend(gen_open_wf(rng)); }
+            }
+            for _ in 0..rng.usize(0, 5) { let so = rng.bool(); body.extend(gen_tlv(rng, so)); }
+        }
+        4 => { for _ in 0..rng.usize(0, 6) { body.extend(gen_tlv(rng, false)); } }
+        5 => {
+            for _ in 0..rng.usize(0, 5) {
+                if rng.bool() { body.extend(gen_tlv(rng, true)); } else {
+                    body.extend(1u16.to_be_bytes()); body.extend(2u16.to_be_bytes());
+                    body.extend((rng.below(7) as u16).to_be_bytes());
+                }
+            }
+        }
+        _ => {
+            body.extend(gen_pph(rng));
+            // Route Mirroring TLVs (RFC 7854 4.7): type 0 = a BGP message, type 1 = a two-octet information code
+            for _ in 0..rng.usize(0, 3) {
+                if rng.bool() { let u = gen_update(rng); body.extend(0u16.to_be_bytes()); body.extend((u.len() as u16).to_be_bytes()); body.extend(u); }
+                else { body.extend(1u16.to_be_bytes()); body.extend(2u16.to_be_bytes()); body.extend((rng.below(2) as u16).to_be_bytes()); }
+            }
+        }
+    }
+    let mut v = common((6 + body.len()) as u32, typ);
+    v.extend(body);
+    v
+}
+
 /// a RouteMonitoring message around an UPDATE of any family (the C01 generator and reference
 /// encoder), sometimes damaged (the C02 mutator), with the configuration to decode it under
-fn gen_rm(rng: &mut Rng, i: usize) -> (Vec<u8>, String) {
+fn gen_rm(rng: &mut Rng, i: usize) -> (Vec<u8>, String, bool) {
     use crate::props::{c01, c02};
     let (c, content) = c01::gen_case(rng, Some(i % 15), 120);
     let mut u = c01::ref_encode(&c, &content);
     let mut cfg = c01::cfg_token(&c);
+    let mut clean = true;
     match rng.below(8) {
-        0 | 1 => { let other = gen_update(rng); u = c02::mutate(rng, u, &other); }
+        0 | 1 => { let other = gen_update(rng); u = c02::mutate(rng, u, &other); clean = false; }
         2 => { cfg = c02::gen_cfg(rng); }                       // decoded under an unrelated configuration
-        3 => { u.extend(rng.bytes(3)); }                        // octets after the UPDATE's announced length
+        3 => { u.extend(rng.bytes(3)); clean = false; }         // octets after the UPDATE's announced length
         _ => {}
     }
     let mut v = gen_valid(rng, 100);
     v.extend(u);
     let l = v.len() as u32;
     v[1..5].copy_from_slice(&l.to_be_bytes());
-    (v, cfg)
+    (v, cfg, clean)
 }
 
 pub fn mutate(rng: &mut Rng, v: &mut Vec<u8>) {
@@ -448,9 +655,14 @@ impl Prop for C15 {
         for i in 0..n {
             let typ = (i % 7) as u8;
             if typ == 0 && i % 2 == 0 {
-                let (mut v, cfg) = gen_rm(rng, i / 14);
-                if rng.chance(1, 8) { mutate(rng, &mut v); }
-                out.push(format!("bmp {} {}", hex(&v), cfg));
+                let (mut v, cfg, mut clean) = gen_rm(rng, i / 14);
+                if rng.chance(1, 8) { mutate(rng, &mut v); clean = false; }
+                out.push(format!("{} {} {}", if clean { "bmpwf" } else { "bmp" }, hex(&v), cfg));
+                continue;
+            }
+            // three in ten: a well-formed message, which must be accepted
+            if i % 10 < 3 || i % 97 == 0 {
+                out.push(format!("bmpwf {}", hex(&gen_valid_wf(rng, typ))));
                 continue;
             }
             let mut v = gen_valid(rng, typ);
@@ -468,8 +680,8 @@ impl Prop for C15 {
     fn exec(&self, line: &str) -> String {
         let w: Vec<&str> = line.split(' ').collect();
         match w.as_slice() {
-            ["bmp", h] => match unhex(h) { Some(b) => observe(&b, &SessionConfig::modern()), None => "bad-op".into() },
-            ["bmp", h, c] => match (unhex(h), crate::props::c02::parse_cfg(c)) {
+            ["bmp" | "bmpwf", h] => match unhex(h) { Some(b) => observe(&b, &SessionConfig::modern()), None => "bad-op".into() },
+            ["bmp" | "bmpwf", h, c] => match (unhex(h), crate::props::c02::parse_cfg(c)) {
                 (Some(b), Some(c)) => observe(&b, &crate::props::c02::make_cfg(&c)),
                 _ => "bad-op".into(),
             },
@@ -481,7 +693,20 @@ impl Prop for C15 {
     /// no panic anywhere; header fields equal the bytes; embedded UPDATE decodes as on its own.
     fn oracle(&self, line: &str, reply: &str) -> Result<(), String> {
         if reply == "panic" { return Err("bmp::Message::from_octets panicked".into()); }
-        if reply == "err" || reply == "bad-op" { return Ok(()); }
+        if reply == "bad-op" { return Ok(()); }
+        if reply == "err" {
+            // "for every well-formed BMP message decoding succeeds"
+            if line.starts_with("bmpwf ") {
+                // the claim of the request line is re-examined (RFC 7854 framing): a line that lost it - e.g.
+                // a candidate of the shrinker - is an ordinary `bmp` line
+                let b = unhex(line.split(' ').nth(1).unwrap_or("")).unwrap_or_default();
+                if ref_framing_ok(&b) {
+                    return Err(format!("a well-formed BMP message (type {}) was rejected", b[5]));
+                }
+            }
+            return Ok(());
+        }
+        if reply == "unspec" { return Ok(()); }   // embedded PDU of another BGP type: outside the property, nothing panicked
         for f in reply.split(' ') {
             if f.ends_with("=panic") { return Err(format!("accessor group `{}` panicked on an accepted message", f)); }
         }
@@ -520,7 +745,77 @@ impl Prop for C15 {
             let items = st[st.find('[').unwrap() + 1..st.len() - 1].split(';').filter(|x| !x.is_empty()).count();
             if items as u32 != c { return Err(format!("stats() yielded {} items for count {}", items, c)); }
         }
+        // TLV lists, statistics and termination items are the encoded ones (reference walk over the bytes)
+        let walk_tlvs = |from: usize| -> Option<String> {
+            let mut v = Vec::new();
+            let mut p = from;
+            while p < b.len() {
+                if p + 4 > b.len() { return None; }
+                let (t, l) = (u16::from_be_bytes([b[p], b[p + 1]]), u16::from_be_bytes([b[p + 2], b[p + 3]]) as usize);
+                if p + 4 + l > b.len() { return None; }
+                v.push(format!("{}:{}:{}", t, l, hex(&b[p + 4..p + 4 + l])));
+                p += 4 + l;
+            }
+            Some(format!("[{}]", v.join(";")))
+        };
+        if reply.starts_with("IN ") {
+            if let Some(w) = walk_tlvs(6) { if field("tlvs=") != Some(w) { return Err("Initiation: information_tlvs() does not yield the encoded TLVs".into()); } }
+        }
+        if reply.starts_with("TM ") {
+            // strings byte for byte (ASCII ones: from_utf8_lossy is the identity), two-octet reasons by value;
+            // a non-string TLV of another length is malformed: no demand on that item
+            let mut v: Vec<Option<String>> = Vec::new();
+            let mut p = 6; let mut ok = true;
+            while p < b.len() {
+                if p + 4 > b.len() { ok = false; break; }
+                let (t, l) = (u16::from_be_bytes([b[p], b[p + 1]]), u16::from_be_bytes([b[p + 2], b[p + 3]]) as usize);
+                if p + 4 + l > b.len() { ok = false; break; }
+                let val = &b[p + 4..p + 4 + l];
+                v.push(if t == 0 { Some(if val.is_ascii() { format!("s:{}", hex(val)) } else { "s:*".into() }) }
+                    else if l == 2 { Some(format!("r:{}", u16::from_be_bytes([val[0], val[1]]))) } else { None });
+                p += 4 + l;
+            }
+            if ok {
+                let info = field("info=").unwrap_or_default();
+                let got: Vec<&str> = info.trim_start_matches('[').trim_end_matches(']').split(';').filter(|x| !x.is_empty()).collect();
+                if got.len() != v.len() { return Err(format!("Termination: information() yielded {} items for {} TLVs", got.len(), v.len())); }
+                for (g, w) in got.iter().zip(v.iter()) {
+                    if let Some(w) = w { if g != w { return Err(format!("Termination: item `{}` reported for the encoded `{}`", g, w)); } }
+                }
+            }
+        }
+        if reply.starts_with("SR ") {
+            // every statistic whose length is the one its type prescribes: type and value as encoded
+            let st = field("stats=").unwrap_or_default();
+            let got: Vec<&str> = st[st.find('[').map(|i| i + 1).unwrap_or(0)..st.len().saturating_sub(1)].split(';').filter(|x| !x.is_empty()).collect();
+            let mut p = 52;
+            for g in got {
+                if p + 4 > b.len() { break; }
+                let (t, l) = (u16::from_be_bytes([b[p], b[p + 1]]), u16::from_be_bytes([b[p + 2], b[p + 3]]) as usize);
+                if p + 4 + l > b.len() { break; }
+                let val = &b[p + 4..p + 4 + l];
+                let be = |x: &[u8]| x.iter().fold(0u64, |a, c| (a << 8) | *c as u64);
+                let want = match (t, l) {
+                    (0..=6 | 11..=13, 4) => Some(format!("u32:{}:{}", t, be(val))),
+                    (7 | 8 | 14 | 15, 8) => Some(format!("u64:{}:{}", t, be(val))),
+                    (9 | 10 | 16 | 17, 11) => Some(format!("as:{}:{}:{}:{}", t, be(&val[0..2]), val[2], be(&val[3..11]))),
+                    (18.., _) => Some(format!("un:{}:{}", t, l)),
+                    _ => None,     // a defined type with another length: malformed, no demand
+                };
+                if let Some(w) = want { if g != w { return Err(format!("statistic `{}` reported for the encoded `{}`", g, w)); } }
+                p += 4 + l;
+            }
+        }
         if reply.starts_with("PU ") {
+            // local address: all 16 octets unless the first 12 are zero (then an IPv4 address in the last 4 -
+            // demanded only when the per-peer header's V flag agrees: ::/96 with V set is left open)
+            let lf = field("local=").unwrap_or_default();
+            let la = lf.split(':').next().unwrap_or("").to_string();
+            if b[48..60].iter().any(|x| *x != 0) {
+                if la != hex(&b[48..64]) { return Err(format!("local address should be the 16 octets {}", hex(&b[48..64]))); }
+            } else if b[7] & 0x80 == 0 {
+                if la != hex(&b[60..64]) { return Err(format!("local address should be the IPv4 address {}", hex(&b[60..64]))); }
+            }
             let l = field("local=").unwrap_or_default();
             let want = format!(":{}:{}", u16::from_be_bytes([b[64], b[65]]), u16::from_be_bytes([b[66], b[67]]));
             if !l.ends_with(&want) { return Err("local/remote port differ from bytes 64..68".into()); }
@@ -529,6 +824,15 @@ impl Prop for C15 {
             let sl = sent.len() / 2;
             let rcvd = field("rcvd=").unwrap_or_default();
             if !hex(&b[68 + sl..]).starts_with(&rcvd) { return Err("bgp_open_rcvd does not follow bgp_open_sent".into()); }
+            // each OPEN is as long as its own length field says, and the Information TLVs are what follows them
+            for (name, o, at) in [("sent", &sent, 68usize), ("rcvd", &rcvd, 68 + sl)] {
+                if b.len() >= at + 18 && o.len() / 2 != u16::from_be_bytes([b[at + 16], b[at + 17]]) as usize {
+                    return Err(format!("bgp_open_{} is not as long as the OPEN's length field says", name));
+                }
+            }
+            if let Some(w) = walk_tlvs(68 + sl + rcvd.len() / 2) {
+                if field("tlvs=") != Some(w) { return Err("PeerUp: information_tlvs() does not yield the TLVs after the two OPENs".into()); }
+            }
         }
         if reply.contains(" pph=") {
             let p = field("pph=").unwrap_or_default();
@@ -543,8 +847,13 @@ impl Prop for C15 {
         Ok(())
     }
 
-    fn class(&self, _line: &str, reply: &str) -> String {
+    fn class(&self, line: &str, reply: &str) -> String {
         let k = reply.split(' ').next().unwrap_or("");
+        // well-formed messages (claim of the line confirmed by the reference framing) are counted apart
+        if line.starts_with("bmpwf ") {
+            let ok = unhex(line.split(' ').nth(1).unwrap_or("")).map(|b| ref_framing_ok(&b)).unwrap_or(false);
+            return format!("wf{}:{}", if ok { "" } else { "-CLAIM-NOT-CONFIRMED" }, k);
+        }
         if k == "RM" {
             // the embedded UPDATE: rejected / accepted, and which NLRI it carries
             let u = if reply.contains(" upd=err") { "upd-err".to_string() } else {
